@@ -581,3 +581,75 @@ func loopIndexFindings(fn *ssa.Function) (checked int, bad []string) {
 	}
 	return
 }
+
+// spliceInLoopFindings: inside a loop that walks a list of indices in ascending
+// order, removing element idx of another slice with append(X[:idx], X[idx+1:]...)
+// shifts every later element down by one; using the next raw index then removes
+// the wrong element (and leaves the intended one in place).
+func spliceInLoopFindings(fn *ssa.Function) (bad []ssa.Instruction) {
+	loops := loopsOf(fn)
+	for _, b := range fn.Blocks {
+		l := innermost(loops, b)
+		if l == nil {
+			continue
+		}
+		for _, in := range b.Instrs {
+			st, ok := in.(*ssa.Store)
+			if !ok || !stateRooted(st.Addr) {
+				continue
+			}
+			call, ok := st.Val.(*ssa.Call)
+			if !ok {
+				continue
+			}
+			bi, isB := call.Call.Value.(*ssa.Builtin)
+			if !isB || bi.Name() != "append" || len(call.Call.Args) != 2 {
+				continue
+			}
+			s1, ok1 := call.Call.Args[0].(*ssa.Slice)
+			s2, ok2 := call.Call.Args[1].(*ssa.Slice)
+			key := VKey(st.Addr)
+			if !ok1 || !ok2 || !loadOfKey(s1.X, key) || !loadOfKey(s2.X, key) || s1.High == nil || s2.Low == nil {
+				continue
+			}
+			idx := s1.High
+			// idx is an element of an index list walked by an ascending loop counter
+			u, isU := idx.(*ssa.UnOp)
+			if !isU || u.Op != token.MUL {
+				continue
+			}
+			ia, isIA := u.X.(*ssa.IndexAddr)
+			if !isIA {
+				continue
+			}
+			var ctr *ssa.Phi
+			if ph, isPhi := ia.Index.(*ssa.Phi); isPhi {
+				ctr = ph
+			} else if bo, isBO := ia.Index.(*ssa.BinOp); isBO && bo.Op == token.ADD && constIs(bo.Y, "1") {
+				ctr, _ = bo.X.(*ssa.Phi) // range loop: hidden counter + 1
+			}
+			if ctr == nil {
+				continue
+			}
+			var cl *loopInfo
+			for _, x := range loops {
+				if x.header == ctr.Block() {
+					cl = x
+				}
+			}
+			if cl == nil || !cl.blocks[b] {
+				continue
+			}
+			ascending := true
+			for _, leaf := range backLeaves(ctr, cl) {
+				if !isIncOf(leaf, ctr) {
+					ascending = false
+				}
+			}
+			if ascending {
+				bad = append(bad, in)
+			}
+		}
+	}
+	return
+}
